@@ -8,15 +8,45 @@ RULE = ('one generated chart + start state + event script is run under every con
         '{live_trace} (50 configurations; active objects run on their real threads, one event at a time, synchronised by a '
         'harness semaphore released at the end of next_rtc); the ground-truth log (offers, guard evaluations, entries, exits, '
         'inits in order), the rest state after every step and any exception are compared with the plain un-spied run. '
+        'Every fifth case instead runs an active object with posters racing its thread under detsched, once with live output off and with each live flag combination on: the set of dispatched events and thread survival must be the same. '
         'distinct_nontrivial = distinct (configuration, number of transitions in the script, max depth) tuples')
 CASES = {'quick': 400, 'thorough': 30000}
 BUDGET = {'quick': 60, 'thorough': 300}
-REQUIRE = {'configs_compared': 2000, 'ao_configs_compared': 200, 'transitions': 500}
+REQUIRE = {'configs_compared': 2000, 'ao_configs_compared': 200, 'transitions': 500, 'concurrent_live_cases': 50}
 ASSUME = ['decoration is all-or-none per chart', 'the plain un-spied run is the reference (tied to the model by C01-C03)']
 CONFIGS = hosts.all_configs()
 
 
+def concurrent_live_case(ctx, n):
+  """an active object with posters racing its thread (detsched): the same workload with live output off and on must
+  dispatch the same events; no thread may die in one configuration only"""
+  from vt.checks import c05
+  rng = ctx.rng('live', n)
+  plans, fan, nev = c05.gen_plan(rng)
+  spied = True
+  outcomes = {}
+  sub = rng.randrange(1 << 30)
+  import random
+  for live in (None, (True, False), (True, True), (False, True)):
+    r2 = random.Random(sub)
+    result, s, hist, ao = c05.run_scenario(ctx, r2, plans, fan, nev, spied, True, extras={'live': live} if live else None)
+    outcomes[live] = (result.get('verdict'), sorted(d['uid'] for d in hist.dispatch if d['sig'] == 'EVT'), result.get('thread_exceptions'))
+  ctx.count('concurrent_live_cases')
+  ref = outcomes[None]
+  ctx.distinct(('concurrent-live', len(plans), nev))
+  for live, oc in outcomes.items():
+    if live is None:
+      continue
+    if oc[1] != ref[1] or bool(oc[2]) != bool(ref[2]) or oc[0] != ref[0]:
+      ctx.violation('C18/live-output-changes-behaviour-under-concurrent-posts',
+                    'active object with racing posters: live_spy=%s live_trace=%s -> verdict %s, %d events dispatched, thread exceptions %r; live output off -> verdict %s, %d events dispatched, thread exceptions %r' % (
+                      live[0], live[1], oc[0], len(oc[1]), oc[2], ref[0], len(ref[1]), ref[2]), {'plans': plans, 'fan': fan, 'live': live})
+      return
+
+
 def run_case(ctx, n):
+  if n % 5 == 4:
+    return concurrent_live_case(ctx, n)
   rng = ctx.rng('case', n)
   spec = cg.gen_spec(rng, nmax=rng.choice([6, 10, 16]), name_style=rng.choice(cg.NAME_STYLES))
   start = rng.randrange(spec['n'])
